@@ -101,6 +101,7 @@ def mx(b, e, st=None):
     if o == 'tf': return st.tf
     if o == 'DT': return st.DT
     if o == 'DTc': return st.DT_control
+    if o == 'q': return b.xq[e['i'] - 1]
     if o == 'int': return st.integral(mx(b, b.decl['quads'][e['i'] - 1], st))
     if o in ('add', 'sub', 'mul'):
         a, c = mx(b, e['a'], st), mx(b, e['b'], st)
@@ -194,7 +195,14 @@ def fill(b, st, decl, with_method=True, after_init=False, method_obj=None):
             b.x.append(ocp.state(scale=fl(s['scale'])) if fr(s['scale']) != 1 else ocp.state())
     for s in decl['controls']:
         b.u.append(ocp.control(scale=fl(s['scale'])) if fr(s['scale']) != 1 else ocp.control())
-    for s in decl['algs']:
+    zb = decl.get('zblocks') or []
+    b.zsyms = []
+    for (r, c) in zb:
+        Zm = ocp.algebraic(r, c); b.zsyms.append(Zm)
+        for cc in range(c):
+            for rr in range(r):
+                b.z.append(Zm if r * c == 1 else Zm[rr, cc])
+    for s in (decl['algs'] if not zb else []):
         b.z.append(ocp.algebraic(scale=fl(s['scale'])) if fr(s['scale']) != 1 else ocp.algebraic())
     pb = decl.get('pblocks') or []
     b.psyms = []
@@ -212,7 +220,10 @@ def fill(b, st, decl, with_method=True, after_init=False, method_obj=None):
         b.v.append(ocp.variable(grid=GRIDKW[v['kind']], include_last=(v['kind'] == 'cp'), **kw))
     if decl['T']['kind'] == 'par': ocp.set_T(b.p[decl['T']['i'] - 1])
     if decl['t0']['kind'] == 'par': ocp.set_t0(b.p[decl['t0']['i'] - 1])
-    if xb:
+    if xb and decl.get('catset'):
+        # one assignment for a concatenation of symbols (a matrix first): element-wise meaning
+        ocp.set_der(ca.veccat(*b.xsyms), ca.vertcat(*[mx(b, e) for e in decl['rhs']]))
+    elif xb:
         i0 = 0
         for X, (r, c) in zip(b.xsyms, xb):
             es = [mx(b, decl['rhs'][i0 + k]) for k in range(r * c)]
@@ -226,12 +237,20 @@ def fill(b, st, decl, with_method=True, after_init=False, method_obj=None):
             else: ocp.set_der(b.x[i], mx(b, e))
     for e in decl['alg']:
         ocp.add_alg(mx(b, e))
+    b.xq = []
+    if decl.get('qstates'):
+        for e in decl['quads']:
+            q = ocp.state(quad=True); b.xq.append(q)
+            ocp.set_der(q, mx(b, e))
     for c in decl['cons']:
         declare_constraint(b, c)
     for e in decl['obj']:
         ocp.add_objective(mx(b, e))
     i0 = 0
-    for Pm, (r, c) in zip(b.psyms, pb):
+    if pb and decl.get('catset'):
+        i0 = sum(r * c for r, c in pb)
+        ocp.set_value(ca.veccat(*b.psyms), ca.DM([fl(decl['params'][k]['val'][0]) for k in range(i0)]))
+    for Pm, (r, c) in (zip(b.psyms, pb) if not decl.get('catset') else []):
         vals = [fl(decl['params'][i0 + k]['val'][0]) for k in range(r * c)]
         ocp.set_value(Pm, ca.reshape(ca.DM(vals), r, c)); i0 += r * c
     for i, p in enumerate(decl['params']):
@@ -311,7 +330,10 @@ def build_multi(md, solver='ipopt'):
         for c in md['pcons']:
             l, r = mx_parent(B.parts, c['lhs']), mx_parent(B.parts, c['rhs'])
             expr = l <= r if c['rel'] == 'le' else l >= r if c['rel'] == 'ge' else l == r
-            ocp.subject_to(expr, meta={"stacktrace": [{"cid": c['cid']}]})
+            target = ocp
+            if md.get('pon', 'parent') != 'parent' and c['lhs']['op'] == 'st' and c['rhs']['op'] == 'st':
+                target = B.parts[(c['lhs'] if md['pon'] == 'later' else c['rhs'])['s'] - 1].stage
+            target.subject_to(expr, meta={"stacktrace": [{"cid": c['cid']}]})
         for e in md['pobj']:
             ocp.add_objective(mx_parent(B.parts, e))
         ocp.solver(solver, {"print_time": False, "ipopt": {"print_level": 0}})
